@@ -414,12 +414,27 @@ class Visitor(ast.NodeVisitor):
             self.recomputed_values[node] = joined_str
             return joined_str
 
+    def _visit_elts(self, elts: List[ast.expr]) -> List[Any]:
+        """Visit the elements of a list, tuple or set display; the starred elements are unpacked."""
+        result = []  # type: List[Any]
+        for elt in elts:
+            if isinstance(elt, ast.Starred):
+                starred = self.visit(node=elt.value)
+                if starred is PLACEHOLDER:
+                    result.append(PLACEHOLDER)
+                else:
+                    result.extend(starred)
+            else:
+                result.append(self.visit(node=elt))
+
+        return result
+
     def visit_List(self, node: ast.List) -> Union[List[Any], Placeholder]:
         """Visit the elements and assemble the results into a list."""
         if isinstance(node.ctx, ast.Store):
             raise NotImplementedError("Can not compute the value of a Store on a list")
 
-        recomputed_elts = [self.visit(node=elt) for elt in node.elts]
+        recomputed_elts = self._visit_elts(elts=node.elts)
 
         # Please see "NOTE ABOUT PLACEHOLDERS AND RE-COMPUTATION"
         if any(recomputed_elt is PLACEHOLDER for recomputed_elt in recomputed_elts):
@@ -433,7 +448,7 @@ class Visitor(ast.NodeVisitor):
         if isinstance(node.ctx, ast.Store):
             raise NotImplementedError("Can not compute the value of a Store on a tuple")
 
-        recomputed_elts = tuple(self.visit(node=elt) for elt in node.elts)
+        recomputed_elts = tuple(self._visit_elts(elts=node.elts))
         # Please see "NOTE ABOUT PLACEHOLDERS AND RE-COMPUTATION"
         if any(recomputed_elt is PLACEHOLDER for recomputed_elt in recomputed_elts):
             return PLACEHOLDER
@@ -443,7 +458,7 @@ class Visitor(ast.NodeVisitor):
 
     def visit_Set(self, node: ast.Set) -> Union[Set[Any], Placeholder]:
         """Visit the elements and assemble the results into a set."""
-        recomputed_elts = set(self.visit(node=elt) for elt in node.elts)
+        recomputed_elts = set(self._visit_elts(elts=node.elts))
         # Please see "NOTE ABOUT PLACEHOLDERS AND RE-COMPUTATION"
         if any(recomputed_elt is PLACEHOLDER for recomputed_elt in recomputed_elts):
             return PLACEHOLDER
@@ -454,11 +469,24 @@ class Visitor(ast.NodeVisitor):
     def visit_Dict(self, node: ast.Dict) -> Union[Dict[Any, Any], Placeholder]:
         """Visit keys and values and assemble a dictionary with the results."""
         recomputed_dict = dict()  # type: Dict[Any, Any]
+        has_placeholder = False
         for key, val in zip(node.keys, node.values):
-            assert isinstance(key, ast.AST)
             assert isinstance(val, ast.AST)
 
+            if key is None:
+                # Dictionary unpacking, ``{**val}``
+                unpacked = self.visit(node=val)
+                if unpacked is PLACEHOLDER:
+                    has_placeholder = True
+                else:
+                    recomputed_dict.update(unpacked)
+                continue
+
+            assert isinstance(key, ast.AST)
             recomputed_dict[self.visit(node=key)] = self.visit(node=val)
+
+        if has_placeholder:
+            return PLACEHOLDER
 
         # Please see "NOTE ABOUT PLACEHOLDERS AND RE-COMPUTATION"
         if any(
@@ -689,7 +717,10 @@ class Visitor(ast.NodeVisitor):
             args = []  # type: List[Any]
             for arg_node in node.args:
                 if isinstance(arg_node, ast.Starred):
-                    args.extend(self.visit(node=arg_node))
+                    starred = self.visit(node=arg_node.value)
+                    if starred is PLACEHOLDER:
+                        return PLACEHOLDER
+                    args.extend(starred)
                 else:
                     args.append(self.visit(node=arg_node))
 
